@@ -17,6 +17,7 @@ PROPS = {
     "C13": {"level": "exploration", "parts": [part("order", "stack", "TestVerifC13")]},
     "C06": {"level": "exploration", "parts": [
         part("mapchoice", "stack", "TestVerifC06", variant="mapchoice"),
+        part("aggmap", "stack", "TestVerifC06Agg", variant="mapchoice"),
         part("plain", "stack", "TestVerifC06"),
         part("history", "stack", "TestVerifC06History"),
         part("processes", "stack", "TestVerifC06Processes")]},
